@@ -1214,7 +1214,12 @@ def _integration_test(d, v, code, fname, marker):
 def replay_static(d, pid, v):
     """Static obligations with a native demonstration."""
     if pid in DISC_PIDS:
-        return _integration_test(d, v, open(os.path.join(os.path.dirname(os.path.abspath(__file__)), "oracle_test.rs")).read(), "verif_checker_oracle", "VIOLATION checker-oracle")
+        ok, out = _integration_test(d, v, open(os.path.join(os.path.dirname(os.path.abspath(__file__)), "oracle_test.rs")).read(), "verif_checker_oracle", "VIOLATION checker-oracle")
+        if ok is None and re.search(r"test result: FAILED\. \d+ passed; [1-9]\d* failed", out):
+            # the demonstration was built and ran, and a checker panicked on a valid model before the oracle could
+            # print its marker (e.g. path reconstruction on a visited set that misses a state): the code fails natively
+            return True, out
+        return ok, out
     if pid == "C12" and "not closed by the timeout thread before the closing time" in v["obligation"]:
         return _native_test(d, STATIC_TEST_EARLY, "verif_timeout_not_before_deadline", "VIOLATION market closed")
     if pid == "C12" and ("market closed once the closing time has passed" in v["obligation"] or "never goes back to sleep once the closing time has passed" in v["obligation"]):
